@@ -532,6 +532,17 @@ func (e *SpecEnv) evalAddr(x ast.Expr) *SV {
 		return e.evalAddr(n.X)
 	case *ast.CallExpr:
 		// ghostbytes(obj, "name"): a ghost []byte field attached to any scalar value (e.g. an interface)
+		if id, ok := n.Fun.(*ast.Ident); ok && id.Name == "ghostint" && len(n.Args) == 2 {
+			o := e.eval(n.Args[0])
+			nm := e.eval(n.Args[1])
+			if o == nil || nm == nil || o.V == nil || len(o.V.L) == 0 || !nm.V.L[0].IsLit() {
+				e.fail("ghostint(obj, \"name\")")
+				return nil
+			}
+			it := types.Typ[types.Int]
+			p := &Val{T: types.NewPointer(it), L: []*Term{o.V.L[0]}, Addr: &AddrInfo{Root: it, Known: true, Key: "ghostint:" + nm.V.L[0].S}}
+			return &SV{V: p, St: e.cur}
+		}
 		if id, ok := n.Fun.(*ast.Ident); ok && id.Name == "ghostbytes" && len(n.Args) == 2 {
 			o := e.eval(n.Args[0])
 			nm := e.eval(n.Args[1])
@@ -683,15 +694,15 @@ func (e *SpecEnv) evalBinary(n *ast.BinaryExpr) *SV {
 			}
 			eq = Eq(s.V.Arr(), Int(0))
 		} else {
-			if len(a.V.L) != len(b.V.L) {
-				e.fail("comparison of different shapes: %s", exprString(n))
-				return nil
+			if a.V == nil || b.V == nil || len(a.V.L) != len(b.V.L) {
+				// values of different shape are never equal (lets one guard
+				// condition cover call sites with differently typed arguments)
+				return svBool(Bool(n.Op == token.NEQ))
 			}
 			var fs []*Term
 			for i := range a.V.L {
 				if a.V.L[i].Sort != b.V.L[i].Sort {
-					e.fail("comparison of different sorts: %s", exprString(n))
-					return nil
+					return svBool(Bool(n.Op == token.NEQ))
 				}
 				fs = append(fs, Eq(a.V.L[i], b.V.L[i]))
 			}
@@ -803,6 +814,15 @@ func (e *SpecEnv) resolveType(x ast.Expr) types.Type {
 			if t := e.resolveType(n.Elt); t != nil {
 				return types.NewSlice(t)
 			}
+		}
+	case *ast.MapType:
+		k, v := e.resolveType(n.Key), e.resolveType(n.Value)
+		if k != nil && v != nil {
+			return types.NewMap(k, v)
+		}
+	case *ast.InterfaceType:
+		if n.Methods == nil || len(n.Methods.List) == 0 {
+			return types.NewInterfaceType(nil, nil)
 		}
 	}
 	return nil
@@ -1146,6 +1166,25 @@ func (e *SpecEnv) evalCall(n *ast.CallExpr) *SV {
 			return svBool(body)
 		}
 		return svBool(Forall([]*Term{r}, body))
+	case "ghostint":
+		a := e.evalAddr(n)
+		if a == nil {
+			return nil
+		}
+		return &SV{V: e.g.loadQuiet(e.cur, a.V, types.Typ[types.Int]), St: e.cur}
+	case "arg":
+		// arg(k): k-th argument of the call being guarded (0 = receiver for methods)
+		k := arg(0)
+		if k == nil || !k.V.L[0].IsLit() || e.g.guardArgs == nil {
+			e.fail("arg(k) is only available in guard-call conditions")
+			return nil
+		}
+		i := int(k.V.L[0].I.Int64())
+		if i < 0 || i >= len(e.g.guardArgs) || e.g.guardArgs[i] == nil {
+			e.fail("arg(%d): no such argument", i)
+			return nil
+		}
+		return &SV{V: e.g.guardArgs[i], St: e.cur}
 	case "ghostbytes":
 		a := e.evalAddr(n)
 		if a == nil {
